@@ -794,6 +794,10 @@ def gen_trim_config(rng, max_m):
         if rng.random() < (0.9 if small else 0.6):
             for mb in cfg["members"]:
                 mb["w"] *= rng.choice([1.0, 1.0, 1.0, 0.3, 1e-2, 1e-4, 1e-6, 3e-7, 1e-8])
+            if small and len(cfg["members"]) >= 2 and rng.random() < 0.6:
+                # one member just under the relative threshold of the default precision, far above the tolerance
+                big = max(mb["w"] for mb in cfg["members"])
+                rng.choice(cfg["members"])["w"] = big * rng.choice([3e-7, 6e-7, 9e-7])
             tot = sum(mb["w"] for mb in cfg["members"])
             for mb in cfg["members"]:
                 mb["w"] /= tot
@@ -1919,9 +1923,9 @@ def run(chk: core.Check):
             handle(chk, gen_sim_config(rng, 4, superposed=True))
         for _ in range(n_proc):
             handle(chk, gen_proc_config(rng, max_m))
-        for _ in range(chk.pick(320, 2000)):
+        for _ in range(chk.pick(260, 2000)):
             handle(chk, gen_trim_config(rng, max_m))
-        for _ in range(chk.pick(220, 1400)):
+        for _ in range(chk.pick(180, 1400)):
             handle(chk, gen_session_config(rng, max_m))
         malformed(chk, rng, chk.pick(30, 300))
         chk.extra["real_code_worker_crashes"] = chk.real.crashes
